@@ -12,7 +12,7 @@ CHECKS = {
             "Trusts the brute-force encoder's zz9 layout (validated against the fixture-pinned library) and Hypothesis' generators; sizes bounded (N<=24, <=4 valid categories, <=3 items).", "6 C01"),
 }
 CHECKS["C02"] = ("respondent-level eligibility oracle vs. per-cell bases, margins, ranges and mask (Hypothesis)",
-    "Generated-input search over surveys with per-item missingness and random subtotal/difference insertions: the six base matrices, 1-D/2-D margins, scalar/1-D/2-D table base and margin, their ranges and the min-base mask are each compared with the count of respondents eligible for the denominator, one by one. Exploration.",
+    "Generated-input search over surveys with per-item missingness and random subtotal/difference insertions: the six base matrices, 1-D/2-D margins, scalar/1-D/2-D table base and margin, their ranges and the min-base mask are each compared with the count of respondents eligible for the denominator, one by one. Exploration. A third sub-check reads the bases of a slice one of whose dimensions has no valid element (known finding: IndexError).",
     "Trusts encoder and oracle predicates (membership / validity per item); bounded sizes; threshold 0..12.", "6 C02")
 CHECKS["C03"] = ("oracle + defining relations (count/base, x100, sums to one over hidden-included base elements) on generated surveys",
     "Generated-input search: proportions vs public count/base and vs respondent-level count/base, NaN iff zero base, [0,1] bound, percentages, sums to one with hidden elements read from an un-hidden reference run, margin proportions. One known finding (2-D margin-proportion fallback) is excluded by signature and reported.",
@@ -30,8 +30,8 @@ CHECKS["C04"] = ("metamorphic merge-the-addends relation + respondent-level sign
     "Generated-input search with three oracles: (direct) every inserted cell vs the signed sum over respondents and the NaN rules; (merge) the survey is rewritten so the addends are one category and every measure of the subtotal vector (counts, six bases, proportions, variances, std-errs, MoEs, z/p when both tables have rank>=2, pairwise t/p as compared and as selected column, scale statistics, population estimates) must equal the merged category's; (wave) categorical-date one-minus-one and multi-term differences. Two defects fixed, one recorded.",
     "Share of sum is judged in C15; legacy PairwiseSignificance helpers and smoothed series excluded from the equivalence (stated in evidence).", "6 C04")
 CHECKS["C06"] = ("metamorphic relation: partition k of a 3-D / multi-cube response == the 2-D (1-D) analysis of the survey restricted to table element k (Hypothesis)",
-    "Generated-input search: 3-D cubes with CAT (missing categories anywhere) / MR / CA-items table dimensions crossed with all row x column pairings and random transforms; for each valid table element the respondents are restricted, re-encoded as a 2-D cube and every public output compared; tabbook, CA-as-0th and numeric-summary CubeSets compared with their constituent analyses. One defect found and fixed (3-D column index baseline).",
-    "Ties the 3-D / CubeSet paths to the 2-D path, which C01-C03/C11-C16 tie to respondents. CA categories as table dimension and single-column-filter augmentation are not generated.", "6 C06")
+    "Generated-input search: 3-D cubes with CAT (missing categories anywhere) / MR / CA-items table dimensions crossed with all row x column pairings and random transforms; for each valid table element the respondents are restricted, re-encoded as a 2-D cube and every public output compared; tabbook, CA-as-0th and numeric-summary CubeSets compared with their constituent analyses. Defects found and fixed: 3-D column index baseline, four in augment_response.",
+    "Ties the 3-D / CubeSet paths to the 2-D path, which C01-C03/C11-C16 tie to respondents. CA categories as table dimension are not generated. Single-column-filter augmentation (text / binned rows, weighted, every response form, re-use of the response) is; CA-as-0th with a numeric summary is a recorded known finding.", "6 C06")
 CHECKS["C10"] = ("metamorphic relation: re-encode the survey with dimensions exchanged and transforms mirrored; paired outputs must be transposes / twins (Hypothesis)",
     "Generated-input search over all A x B pairings (except numeric arrays), with insertions, differences, hide, prune and mirrored orders: 23 direction-free outputs, 9 row/column matrix twins, 17 vector/scalar twins, table base/margin, orders and masks of the two runs are compared. Found the share-of-sum denominators defect (fixed).",
     "Both runs come from the library; independence comes from re-encoding the data in the other axis order so that every row-path is checked against the column-path. Both-categorical-date population outputs excluded.", "6 C10")
@@ -62,7 +62,7 @@ CHECKS["C20"] = ("four-line trailing-mean specification vs smoothed outputs; bou
 CHECKS["C08"] = ("order of a sorted run judged against the PUBLIC measure of an un-ordered reference run: fixed brackets, monotone body, NaN-last, subtotal group, fallback = anchored specification (Hypothesis)",
     "Generated-input search over every sortable measure keyword (33), marginal keyword (7), strand keyword (13), label sort, both directions, fixed lists with repeats and stale ids, hide/prune, rows and columns, slices and strands; unresolvable keys (unknown element / insertion id, measure not in the response, undefined marginal) must give the anchored payload order of the C07 specification.",
     "Population keywords only with fraction 1 and positive population; ties are free (non-strict monotonicity).", "6 C08")
-CHECKS["C18"] = ("Hypothesis rule-based state machine over shared argument objects vs a history-free reference; dict / JSON / envelope forms; sampled 8-thread schedules",
+CHECKS["C18"] = ("Hypothesis rule-based state machine over shared argument objects vs a history-free reference; dict / JSON / envelope / JSON-of-envelope forms; sampled 8-thread schedules; re-use of responses across cube sets; cross-process evaluation under different PYTHONHASHSEED values",
     "Model-based stateful search: cubes and cube sets are built repeatedly on ONE shared response (dict, JSON text, {'value':...} envelope around the same dict) and ONE shared transforms dict; random histories of reads (every public lazyproperty, pairwise and order methods, cube and cube-set properties) with re-reads and interleavings across partitions / cubes; each value must equal the value a fresh cube on pristine deep copies gives for that single read. The reference is itself tied to respondents (embedded C01 check). Sampled thread schedules found two genuine races (fixed).",
     "Thread schedules are sampled, never enumerated: a race can be found, not excluded. Hypothesis replay-divergence is reported as a violation because the harness is deterministic.", "6 C18")
 CHECKS["C19"] = ("metamorphic relation across spellings of one array item (alias / sub-variable id / element id int+str / zero-based position; datetime position id / value) in every reference-taking slot; unmatched references ignored (Hypothesis)",
